@@ -9,6 +9,12 @@ package multiplex
 //     V <id> <rxRate> <txRate>       -> <id> rx=<q>,<F>,<cap> tx=<q>,<F>,<cap>   the real MakeValve
 //     B <id> <rate> <cap> <op> ...   -> <id> <res> ...   A:<d> advance | T:<c> Take | M:<c>:<max> TakeMaxDuration | V Available
 //                                       res: - | w<ns> | x | v<n>
+//                                       W:<c> Wait and X:<c>:<max> WaitMaxDuration sleep on the injected clock (res w<slept ns> | x)
+// (a') the real LimitedValve called directly (no session) under virtual time: the calls switchboard makes
+//     L <id> <dir tx|rx> <rxRate> <txRate> C:<delay ns>:<n>:<count>:<gap ns> ...
+//     every caller is a goroutine: waits <delay>, then <count> times valve.txWait(n) / rxWait(n) (through the
+//     Valve interface) pausing <gap> after each return
+//     -> <id> rx=<q>,<F>,<cap> tx=<q>,<F>,<cap> t0=<ns> | <time of the call>:<time of the return>:<n>:<caller> ...
 // (b) real Sessions with a real LimitedValve (MakeValve) on an in-memory network under virtual time
 //     S <id> <dir tx|rx> <rxRate> <txRate> <sessions> <conns per session> W:<session>:<size>:<count>:<gap ns>:<delay ns> ...
 //     every writer opens its own stream on its session (tx: on the limited side A, rx: on the peer B),
@@ -292,7 +298,73 @@ func c19Bucket(fs []string, w *bufio.Writer) {
 			}
 		case "V":
 			fmt.Fprintf(w, " v%d", tb.Available())
+		case "W":
+			c, _ := strconv.ParseInt(p[1], 10, 64)
+			before := clk.now
+			tb.Wait(c)
+			fmt.Fprintf(w, " w%d", int64(clk.now.Sub(before)))
+		case "X":
+			c, _ := strconv.ParseInt(p[1], 10, 64)
+			m, _ := strconv.ParseInt(p[2], 10, 64)
+			before := clk.now
+			if tb.WaitMaxDuration(c, time.Duration(m)) {
+				fmt.Fprintf(w, " w%d", int64(clk.now.Sub(before)))
+			} else {
+				w.WriteString(" x")
+			}
 		}
+	}
+	w.WriteString("\n")
+}
+
+// the valve alone: rxWait / txWait exactly as switchboard.deplex / switchboard.send call them
+func c19ValveCalls(fs []string, w *bufio.Writer) {
+	id, dir := fs[1], fs[2]
+	rxRate, _ := strconv.ParseInt(fs[3], 10, 64)
+	txRate, _ := strconv.ParseInt(fs[4], 10, 64)
+	t0 := time.Now().UnixNano()
+	lv := MakeValve(rxRate, txRate)
+	var v Valve = lv
+	type rec struct {
+		req, rel int64
+		n, who   int
+	}
+	var mu sync.Mutex
+	var recs []rec
+	var wg sync.WaitGroup
+	for i, tok := range fs[5:] {
+		p := strings.Split(tok, ":")
+		if len(p) != 5 || p[0] != "C" {
+			continue
+		}
+		delay, _ := strconv.ParseInt(p[1], 10, 64)
+		n, _ := strconv.Atoi(p[2])
+		count, _ := strconv.Atoi(p[3])
+		gap, _ := strconv.ParseInt(p[4], 10, 64)
+		i := i
+		wg.Add(1)
+		go func() {
+			defer wg.Done()
+			time.Sleep(time.Duration(delay))
+			for k := 0; k < count; k++ {
+				req := time.Now().UnixNano()
+				if dir == "rx" {
+					v.rxWait(n)
+				} else {
+					v.txWait(n)
+				}
+				rel := time.Now().UnixNano()
+				mu.Lock()
+				recs = append(recs, rec{req, rel, n, i})
+				mu.Unlock()
+				time.Sleep(time.Duration(gap))
+			}
+		}()
+	}
+	wg.Wait()
+	fmt.Fprintf(w, "%s rx=%s tx=%s t0=%d |", id, c19Params(lv.rxtb), c19Params(lv.txtb), t0)
+	for _, r := range recs {
+		fmt.Fprintf(w, " %d:%d:%d:%d", r.req, r.rel, r.n, r.who)
 	}
 	w.WriteString("\n")
 }
@@ -334,6 +406,8 @@ func TestVerifC19(t *testing.T) {
 				c19Bucket(fs, w)
 			case "S":
 				c19Scenario(fs, w)
+			case "L":
+				c19ValveCalls(fs, w)
 			}
 		}
 		w.WriteString("# done\n")
